@@ -199,8 +199,14 @@ func streamAlias(c *Ctx) {
 				vb, err := share.NewBlob(ns, dviews[1], bl.ShareVersion(), signer)
 				if err == nil {
 					c.aliasCheck("blob views", dflat, []roCall{
-						{"GenerateSubtreeRoots", func() string { r, err := inclusion.GenerateSubtreeRoots(vb, sc.thr); return fmt.Sprint(len(r), err) + digList(r) }},
-						{"CreateCommitment", func() string { r, err := inclusion.CreateCommitment(vb, simpleMerkle, sc.thr); return hx(r) + fmt.Sprint(err) }},
+						{"GenerateSubtreeRoots", func() string {
+							r, err := inclusion.GenerateSubtreeRoots(vb, sc.thr)
+							return fmt.Sprint(len(r), err) + digList(r)
+						}},
+						{"CreateCommitment", func() string {
+							r, err := inclusion.CreateCommitment(vb, simpleMerkle, sc.thr)
+							return hx(r) + fmt.Sprint(err)
+						}},
 						{"Blob.ToShares", func() string { s, _ := vb.ToShares(); return digList(sharesToBytes(s)) }},
 						{"Blob.Marshal", func() string { m, _ := vb.Marshal(); return dig(m) }},
 						{"MarshalBlobTx", func() string { m, _ := tx.MarshalBlobTx(dviews[1], vb); return dig(m) }},
